@@ -105,7 +105,8 @@ def main():
             if len(calls) != 1:
                 raise S.Unsupported("closure asks the feasibility oracle %d times" % len(calls))
             a, b = calls[0][1]
-            post = z3.And(a == size, b == n - size)
+            # exact_mw_feasible is symmetric in its arguments (C(n1+n2, min(n1, n2))): either order is the same question
+            post = z3.Or(z3.And(a == size, b == n - size), z3.And(a == n - size, b == size))
             r, m, s = check(pre + pa.pc + [z3.Not(post)])
             out["queries"].append(dict(q="threshold closure asks exact_mw_feasible(size, n - size): the two sides of the split", result=str(r), s=s))
             if r == z3.sat:
